@@ -177,6 +177,8 @@ pub mod boundary {
             // That is not the same as returning `true`: the elements do not
             // have to be equal to themselves (e.g. a `NaN`).
             if Arc::ptr_eq(&self.inner.0, &other.inner.0) {
+                #[cfg(feature = "verif-hooks")]
+                crate::verif::list_lock(std::sync::Arc::as_ptr(&self.inner.0) as usize, "eq_self#1");
                 let this = self.inner.0.lock().unwrap();
 
                 // SAFETY: The rawlist represents a slice of T::Transformed so
@@ -490,6 +492,8 @@ impl PartialEq for ErasedList {
         // not the same as returning `true`: the elements do not have to be
         // equal to themselves (e.g. a `NaN`).
         if Arc::ptr_eq(&self.0, &other.0) {
+            #[cfg(feature = "verif-hooks")]
+            crate::verif::list_lock(std::sync::Arc::as_ptr(&self.0) as usize, "eq_self#2");
             let this = self.0.lock().unwrap();
 
             for i in 0..this.len() {
